@@ -439,6 +439,11 @@ func (ega *EnhancedGroupAggregator) AddPostAggregationExpression(outputField, or
 
 		// Check if input field is an expression (contains function calls)
 		isInputExpression := strings.Contains(field.InputField, "(") && strings.Contains(field.InputField, ")")
+		// Arithmetic over columns (sum(v * 2) + 1) is an expression argument as well;
+		// without this the aggregator looked up a column literally named "v * 2".
+		if field.InputField != "*" && (strings.ContainsAny(field.InputField, "+*/%") || strings.Contains(field.InputField, " - ")) {
+			isInputExpression = true
+		}
 
 		// If input expression itself contains aggregation calls, skip creating an aggregator for this field
 		// Use dynamic function registry instead of hardcoded list
